@@ -403,8 +403,56 @@ FN_FACTS = [("fft2", ".fft2"), ("ifft2", ".ifft2"), ("roll", ".roll"), ("roll_on
             ("view_as_real", ".viewAsReal")]
 
 
-def fn_facts(fn: ast.FunctionDef):
-    """-> dict(globals, foreignStores, inplace, decorators, mutableDefaults, earlyReturns)"""
+_AMBIENT = ("is_autocast_enabled", "is_autocast_cpu_enabled", "get_autocast_dtype", "get_autocast_gpu_dtype", "get_autocast_cpu_dtype",
+            "is_autocast_cache_enabled", "is_grad_enabled", "is_inference_mode_enabled", "is_inference", "get_default_dtype",
+            "get_default_device", "are_deterministic_algorithms_enabled", "is_deterministic_algorithms_warn_only_enabled",
+            "get_num_threads", "get_float32_matmul_precision", "is_anomaly_enabled", "getenv")
+_AMBIENT_PREFIX = ("torch.backends.", "os.environ", "torch._C._get", "torch.cuda.amp", "torch.amp.")
+
+
+def ambient_reads(fn: ast.AST) -> int:
+    """references to ambient interpreter / torch state inside `fn`"""
+    k = 0
+    for n in ast.walk(fn):
+        if isinstance(n, ast.Attribute):
+            txt = ast.unparse(n)
+            if n.attr in _AMBIENT or any(txt.startswith(p) for p in _AMBIENT_PREFIX):
+                k += 1
+        elif isinstance(n, ast.Name) and n.id in _AMBIENT:
+            k += 1
+    return k
+
+
+def _helper_closure(tree: ast.Module, fn: ast.FunctionDef, exclude: set[str]):
+    """module-level functions of the same file that `fn` (transitively) calls by name, except the anchored ones"""
+    defs = {d.name: d for d in tree.body if isinstance(d, ast.FunctionDef)}
+    seen, todo = [], [fn]
+    while todo:
+        f = todo.pop()
+        for n in ast.walk(f):
+            if isinstance(n, ast.Call) and isinstance(n.func, ast.Name) and n.func.id in defs and n.func.id not in exclude \
+                    and n.func.id != fn.name and defs[n.func.id] not in seen:
+                seen.append(defs[n.func.id])
+                todo.append(defs[n.func.id])
+    return seen
+
+
+def fn_facts(fn: ast.FunctionDef, tree: ast.Module = None, exclude: set[str] = frozenset()):
+    """-> dict(globals, foreignStores, inplace, decorators, mutableDefaults, earlyReturns, ambient); the first three and `ambient`
+    include the private helpers of the module that `fn` calls (a helper extracted from / inlined into it changes nothing)"""
+    f = _fn_facts1(fn)
+    f["ambient"] = ambient_reads(fn)
+    if tree is not None:
+        for h in _helper_closure(tree, fn, set(exclude)):
+            g = _fn_facts1(h)
+            for k in ("globals", "foreignStores", "inplace"):
+                f[k] += g[k]
+            f["ambient"] += ambient_reads(h)
+    return f
+
+
+def _fn_facts1(fn: ast.FunctionDef):
+    """-> dict(globals, foreignStores, inplace, decorators, mutableDefaults, earlyReturns) of one function body"""
     params = {a.arg for a in fn.args.args + fn.args.kwonlyargs}
     tensors = {a.arg for a in fn.args.args + fn.args.kwonlyargs
                if a.arg == "data" or (a.annotation is not None and "Tensor" in ast.unparse(a.annotation))}
@@ -606,15 +654,15 @@ def _c01_phase3_extra():
     try:
         t = tree(T)
         for pyname, lean in FN_FACTS:
-            f = fn_facts(find_function(t, pyname))
+            f = fn_facts(find_function(t, pyname), t, {n for n, _ in FN_FACTS})
             rows.append(f"  ⟨{lean}, {f['globals']}, {f['foreignStores']}, {f['inplace']}, {f['decorators']}, {f['mutableDefaults']}, "
-                        f"{f['earlyReturns']}⟩")
+                        f"{f['earlyReturns']}, {f['ambient']}⟩")
         out.append(f"/-- translated from `{T}`: per function — `global`s, foreign stores, in-place updates of an argument, decorators, "
-                   "mutable defaults, early returns -/\n"
+                   "mutable defaults, early returns, reads of ambient torch state (helpers of the module included) -/\n"
                    "def fn_facts : List Fft.FnFacts := [\n" + ",\n".join(rows) + "]\n")
         status["fn_facts"] = "translated"
     except Untranslatable as e:
-        rows = [f"  ⟨{lean}, 0, 0, 0, 0, 0, {1 if lean == '.rollOneDim' else 0}⟩" for _, lean in FN_FACTS]
+        rows = [f"  ⟨{lean}, 0, 0, 0, 0, 0, {1 if lean == '.rollOneDim' else 0}, 0⟩" for _, lean in FN_FACTS]
         out.append(f"/-- SKIPPED ({e}) -/\ndef fn_facts : List Fft.FnFacts := [\n" + ",\n".join(rows) + "]\n")
         status["fn_facts"] = f"skipped: {e}"
     try:
